@@ -78,7 +78,7 @@ def encode(id, flags, questions, answers=(), authorities=(), additionals=(), cou
 NOTES: set = set()  # filled by decode(): coarse wire features used only to *classify* findings ("pointer-to-root")
 
 
-def _name(buf: bytes, off: int, allow_ptr=True):
+def _name(buf: bytes, off: int, allow_ptr=True, limit=True):
     """-> (labels tuple (lower-cased), offset after the name in the original position)."""
     labels = []
     jumps = 0
@@ -116,7 +116,9 @@ def _name(buf: bytes, off: int, allow_ptr=True):
         labels.append(bytes(buf[off : off + ln]).lower())
         total += ln + 1
         if total > 255:
-            raise DecodeError("name too long")
+            if limit:
+                raise DecodeError("name too long")
+            NOTES.add("rdata-name-over-255-octets")  # embedded names are expanded even when over-long (only compared / classified)
         off += ln
     return tuple(labels), (end if end is not None else off)
 
@@ -125,33 +127,33 @@ def _rdata(buf: bytes, off: int, end: int, typ: int):
     raw = bytes(buf[off:end])
     try:
         if typ in ONE_NAME:
-            n, o = _name(buf[:end], off)
+            n, o = _name(buf[:end], off, limit=False)
             if o != end:
                 raise DecodeError("trailing rdata")
             return ("names", (n,))
         if typ in U16_NAME:
             if end - off < 3:
                 raise DecodeError("short")
-            n, o = _name(buf[:end], off + 2)
+            n, o = _name(buf[:end], off + 2, limit=False)
             if o != end:
                 raise DecodeError("trailing rdata")
             return ("u16name", raw[:2], n)
         if typ in TWO_NAMES:
-            n1, o = _name(buf[:end], off)
-            n2, o = _name(buf[:end], o)
+            n1, o = _name(buf[:end], off, limit=False)
+            n2, o = _name(buf[:end], o, limit=False)
             if o != end:
                 raise DecodeError("trailing rdata")
             return ("names", (n1, n2))
         if typ == SOA:
-            n1, o = _name(buf[:end], off)
-            n2, o = _name(buf[:end], o)
+            n1, o = _name(buf[:end], off, limit=False)
+            n2, o = _name(buf[:end], o, limit=False)
             if end - o != 20:
                 raise DecodeError("soa tail")
             return ("soa", n1, n2, bytes(buf[o:end]))
         if typ == SRV:
             if end - off < 7:
                 raise DecodeError("short")
-            n, o = _name(buf[:end], off + 6)
+            n, o = _name(buf[:end], off + 6, limit=False)
             if o != end:
                 raise DecodeError("trailing rdata")
             return ("srv", raw[:6], n)
